@@ -37,8 +37,8 @@ static int vp_is_blk(const void *b, int k) { for (unsigned i = 0; i < vp_nblk[k]
    the whole block into one opaque value and destroy constant propagation of hint/len/tags */
 #define SD(d) (((struct qs*)(d))->data)
 #define BD(d) (((struct qb*)(d))->data)
-#define H16(p, n) ((n) == 0 ? 0u : (VP_IS_QS(p) ? ((struct qs*)((char*)(p) - QS_OFF))->hint : (uint32_t)(n)))
-#define H8(p, n) ((n) == 0 ? 0u : (VP_IS_QB(p) ? ((struct qb*)((char*)(p) - QB_OFF))->hint : (uint32_t)(n)))
+#define H16(p, n) (VP_IS_QS(p) ? ((struct qs*)((char*)(p) - QS_OFF))->hint : (uint32_t)(n))
+#define H8(p, n) (VP_IS_QB(p) ? ((struct qb*)((char*)(p) - QB_OFF))->hint : (uint32_t)(n))
 /* ---- string ids: `sid` identifies the content of a UTF-16 string so that equality is one 64-bit comparison.
    len <= 3: injective packing (top bit 0).  len > 3: rotate-xor hash with top bit 1, used only for content that is a verbatim
    copy of literal data of the program (flag `exact`); the driver checks OFFLINE, on every run, that the hash is injective on
